@@ -127,6 +127,8 @@ fn retry(args: &Args, acc: &mut Acc, seed: u64, verbose: bool) {
     let entries: Vec<Entry> = (0..nprod).map(|_| *rng.pick(&es)).collect();
     let mut rc = match args.lane { Lane::Ser => RunCfg::ser(seed, draw_strategy(&mut rng, nprod + 1, super::c01::PAUSE_SITES, 400)), Lane::Free => RunCfg::free(seed, rng.below(3) as u8) };
     rc.trace = verbose && args.get("trace").is_some();
+    // a send that goes to sleep in a blocking wait (instead of answering "full") is what this property rules out: under the conductor nobody would ever wake it
+    rc.blocked_token_holder_is_stall = true;
     let ch = chan::make(kind, n, m, false).expect("instantiation");
     let mut strm = ch.create_stream();
     if rc.lane == Lane::Free { crate::drive::preregister_noop(&mut strm) }
@@ -190,7 +192,7 @@ fn held(args: &Args, acc: &mut Acc, seed: u64, verbose: bool) {
     let mut rc = RunCfg::ser(seed, draw_strategy(&mut rng, nsend + 1, super::c01::PAUSE_SITES, 200));
     rc.trace = verbose && args.get("trace").is_some();
     // (a send of this scenario takes a few dozen steps; 12 000 steps inside one send, for every sender, with the holder waiting for them: they wait for the holder)
-    rc.max_steps = 40_000; rc.per_op_step_bound = 12_000;
+    rc.max_steps = 40_000; rc.per_op_step_bound = 12_000; rc.blocked_token_holder_is_stall = true;
     let ch = chan::make(kind, n, m, false).expect("instantiation");
     let mut strm = ch.create_stream();
     let cfgj = J::obj().with("kind", J::s(kind.name())).with("N", J::i(n as i64)).with("M", J::i(m as i64)).with("scenario", J::s("held: N-1 events buffered + 1 slot reserved and kept; other threads send"))
